@@ -90,7 +90,7 @@ class EpochTables(Space):
 
 
 THR2 = dict(S.T0, monotonicity_threshold=.4, min_n_cycles=1)
-CONFIGS = [(E, kind, method, centre) for E in (4, 8, 12, 16, 24) for kind in ('none', 'dict', 'list', 'alias')
+CONFIGS = [(E, kind, method, centre) for E in (4, 8, 12, 16, 24) for kind in ('none', 'dict', 'list', 'alias', 'sparse')
            for method in ('cycles', 'amp') for centre in ('peak', 'trough')]
 
 
@@ -103,6 +103,20 @@ def build_kwargs(kind, method, centre, n):
         base['burst_kwargs'] = {'amp_threshes': (.5, 1.)}
     if kind == 'dict':
         return base
+    if kind == 'sparse':
+        # entries 1, 2 mod 4 give no thresholds (defaults apply there), entry 0 is strict, entry 3 lenient
+        strict = dict(S.T0, monotonicity_threshold=.95, amp_consistency_threshold=.9)
+        lst = []
+        for i in range(n):
+            e = {'burst_method': method, 'center_extrema': centre}
+            if i % 4 == 0:
+                e['threshold_kwargs'] = dict(strict)
+            elif i % 4 == 3:
+                e['threshold_kwargs'] = dict(THR2)
+            elif i % 4 == 2:
+                e = {'center_extrema': centre}
+            lst.append(e)
+        return lst
     if kind == 'alias':
         # the same option set for every epoch, written the short way: ONE dict object repeated n times
         base['threshold_kwargs'] = dict(THR2) if method == 'cycles' else dict(S.TA1)
@@ -117,7 +131,7 @@ def eval_word(case):
     letters, (E, kind, method, centre) = case[:-1], case[-1]
     w = ''.join(letters)
     sig = S.word_signal(w)
-    if len(sig) % E or (kind == 'none' and (method, centre) != ('cycles', 'peak')):
+    if len(sig) % E or (kind == 'none' and (method, centre) != ('cycles', 'peak')) or (kind == 'sparse' and method != 'cycles'):
         return SKIP('length not a multiple of the epoch length' if len(sig) % E else 'duplicate configuration')
     sigs = sig.reshape(-1, E)
     n = sigs.shape[0]
@@ -149,12 +163,22 @@ def eval_word(case):
             return VIOL(dict(sgn, kind='epoch-table', col=col if col == 'is_burst' else 'other', epoch0=e == 0),
                         'epoch %d differs from the partition of the flattened analysis: %s' % (e, dd), observed=obs)
     return OK(outcome=(w, E, kind, method, centre, tuple(table_hash(g) for g in got)),
-              nontrivial=sum(1 for r in ref if len(r)) >= 2)
+              nontrivial=sum(1 for r in ref if len(r)) >= 2 and (kind in ('none', 'dict') or any(r['is_burst'].any() for r in ref if len(r))))
 
 
 def spaces(tier, seed):
     q = tier == 'quick'
     out = [EpochTables(12 if q else 14, 4 if q else 5)]
+    long_cfg = [(E, kind, method, centre) for E in ((40,) if q else (32, 48)) for kind in ('list', 'alias', 'sparse', 'dict')
+                for method in ('cycles', 'amp') for centre in ('peak', 'trough') if not (kind == 'sparse' and method == 'amp')]
+    if q:
+        out.append(ProductSpace('W(2,10)-long-epochs', S.word_dims(['a', 'd'], 10) + [long_cfg], eval_word,
+                                describe='10-letter words (80 samples) in 2 epochs of 40 samples: epochs long enough (>= 3 cycles) for '
+                                         'per-epoch thresholds to change labels', bounds={'configs': len(long_cfg)}))
+    else:
+        out.append(ProductSpace('W(2,12)-long-epochs', S.word_dims(['a', 'd'], 12) + [long_cfg], eval_word, bounds={'configs': len(long_cfg)}))
+        out.append(ProductSpace('W(3,10)-long-epochs', S.word_dims(['a', 'd', 'n'], 10) + [[(40, k, m, c) for (_, k, m, c) in long_cfg[:len(long_cfg) // 2]]],
+                                eval_word))
     if q:
         cfg = [c for c in CONFIGS if c[0] in (8, 12, 16)]
         al = S.alphabet(3)
